@@ -1,4 +1,4 @@
-use crate::{LeanString, ToLeanStringError, UnwrapWithMsg, repr::Repr};
+use crate::{LeanString, ReserveError, ToLeanStringError, UnwrapWithMsg, repr::Repr};
 use alloc::string::String;
 use castaway::{LifetimeFree, match_type};
 use core::{fmt, fmt::Write, num::NonZero};
@@ -64,9 +64,27 @@ impl<T: fmt::Display> ToLeanString for T {
             &LeanString as s => return Ok(s.clone()),
 
             s => {
-                let mut buf = LeanString::new();
-                write!(buf, "{}", s)?;
-                return Ok(buf)
+                // Write through the fallible `try_push_str` so that an allocation failure is
+                // reported as `ToLeanStringError::Reserve` instead of a panic.
+                struct Adapter {
+                    buf: LeanString,
+                    error: Option<ReserveError>,
+                }
+                impl fmt::Write for Adapter {
+                    fn write_str(&mut self, s: &str) -> fmt::Result {
+                        self.buf.try_push_str(s).map_err(|e| {
+                            self.error = Some(e);
+                            fmt::Error
+                        })
+                    }
+                }
+                let mut out = Adapter { buf: LeanString::new(), error: None };
+                let result = write!(out, "{}", s);
+                if let Some(e) = out.error {
+                    return Err(e.into());
+                }
+                result?;
+                return Ok(out.buf)
             }
         });
         Ok(LeanString(repr))
